@@ -104,10 +104,15 @@ def execute(mat, ctx):
     rt = gen.rng_for(PROP, "late-annotations", mat["vector"]["seq"][:24], len(specs))
     late = [rt.choice([None, None, "Circular", "CIRCULAR", "circular"]) for _ in specs]
 
+    same_id = len(specs) >= 3 and (len(specs[0]["seq"]) + len(specs)) % 4 == 0
+
     def respell(recs):
         for r, t in zip(recs, late):
             if t is not None:
                 r.annotations["topology"] = t
+        if same_id:
+            # two different module plasmids that carry the same identifier
+            recs[1].id = recs[1].name = recs[2].id = recs[2].name = "<unknown id>"
         return recs
 
     respell(shared)
